@@ -1141,6 +1141,75 @@ def main():
         key_sites.append(("ICUBridgeCollationCompareFunctorImpl: the collator cache is searched by the locale name (the only input of createCollator)",
                           bool(re.search(r"equals\s*\(\s*theStruct\.m_locale\s*,\s*m_locale\s*\)", cfh))))
 
+    # ---- configuration setters: the container operation each one performs.  Reference semantics = last write wins per key,
+    # removal removes: a map setter must assign (`m[k] = v` / find-and-replace), never `insert` (XalanMap::insert keeps the old
+    # entry); a scalar setter must assign unconditionally
+    setter_ops = []
+    for tag in ("T", "EC"):
+        cname = dict((c[0], c[1]) for c in CLASSES)[tag]
+        both = src[tag][0] + "\n" + src[tag][1]
+        for mem in M.members:
+            if mem["tag"] != tag:
+                continue
+            role = classification.get("%s.%s" % (tag, mem["name"]), {}).get("class")
+            if role not in ("sticky", "config"):
+                continue
+            n = mem["name"]
+            is_map = "Map" in mem["type"]
+            nwriters = 0
+            for mm in re.finditer(r"(?:\b%s::(\w+)|(?<![\w~:>.])(\w+))\s*\(" % cname, both):
+                fname = mm.group(1) or mm.group(2)
+                if fname in (cname, "if", "for", "while", "switch", "catch", "return", "assert", "sizeof") or fname.startswith("~"):
+                    continue
+                k = mm.end(); dpt = 1
+                while k < len(both) and dpt:
+                    dpt += (both[k] == "(") - (both[k] == ")")
+                    k += 1
+                m2 = re.match(r"\s*(?:const\s*)?\{", both[k:k + 40])
+                if not m2:
+                    continue
+                st = k + m2.end() - 1
+                dpt, j = 0, st
+                while j < len(both):
+                    if both[j] == "{":
+                        dpt += 1
+                    elif both[j] == "}":
+                        dpt -= 1
+                        if dpt == 0:
+                            break
+                    j += 1
+                b = both[st + 1:j]
+                if not re.search(r"\b%s\b" % n, b):
+                    continue
+                if is_map:
+                    for mo in re.finditer(r"\b%s\s*\.\s*(insert|erase|clear)\s*\(|\b%s\s*\[[^\]]*\]\s*(?:\.\s*\w+\s*)?=(?!=)|=\s*\n?\s*%s\s*\[" % (n, n, n), b):
+                        opk = mo.group(1) or "assign-through-operator[]"
+                        nwriters += 1
+                        setter_ops.append(("%s.%s: %s() %s" % (tag, n, fname, opk), opk != "insert"))
+                elif mem["kind"] in ("flag", "ptr", "num") or mem["type"].endswith("XalanDOMString"):
+                    for mo in re.finditer(r"\b%s\s*=(?!=)\s*([^;]*);" % n, b):
+                        nwriters += 1
+                        depth0 = b.count("{", 0, mo.start()) == b.count("}", 0, mo.start())
+                        if not depth0 and mo.group(1).strip() == "0":
+                            continue        # a setter clearing the alternative representation (entity resolver pair)
+                        # a setter that only translates an enum in a switch assigns a local and then stores it unconditionally
+                        if fname.startswith(("set", "install", "uninstall")):
+                            setter_ops.append(("%s.%s: %s() assigns %s" % (tag, n, fname, "unconditionally" if depth0 else "under a condition"), depth0 or fname.startswith(("install", "uninstall"))))
+            if is_map and nwriters == 0:
+                setter_ops.append(("%s.%s: no function writes this map any more" % (tag, n), False))
+
+    # the function tables behind installExternalFunctionLocal / ...Global (per-call copy of m_functions; process-wide table)
+    envcpp = resolve_ifs(strip_comments(read("XPath/XPathEnvSupportDefault.cpp")), defined)
+    ub, _, _ = find_body(envcpp, r"\bXPathEnvSupportDefault::updateFunctionTable\s*\((?:[^()]|\([^()]*\))*\)\s*", "XPathEnvSupportDefault::updateFunctionTable")
+    setter_ops.append(("XPathEnvSupportDefault::updateFunctionTable: an existing entry is replaced ((*j).second = clone) or erased", 
+                       bool(re.search(r"\(\*j\)\.second\s*=\s*function->clone", ub)) and bool(re.search(r"\.erase\s*\(\s*j\s*\)", ub))))
+    setter_ops.append(("XPathEnvSupportDefault::updateFunctionTable: never uses insert()", not re.search(r"\.\s*insert\s*\(", ub)))
+    for fn_, arg in (("installExternalFunctionGlobal", "&function"), ("uninstallExternalFunctionGlobal", "0"),
+                     ("installExternalFunctionLocal", "&function"), ("uninstallExternalFunctionLocal", "0")):
+        fb, _, _ = find_body(envcpp, r"\bXPathEnvSupportDefault::%s\s*\((?:[^()]|\([^()]*\))*\)\s*" % fn_, fn_)
+        setter_ops.append(("XPathEnvSupportDefault::%s goes through updateFunctionTable(…, %s)" % (fn_, arg),
+                           bool(re.search(r"updateFunctionTable\s*\([^;]*,\s*%s\s*\)" % re.escape(arg), fb))))
+
     # ---- classification
     roles = {}
     unclassified = []
@@ -1247,6 +1316,10 @@ def main():
         rows_.append('  ("%s", [%s], [%s])' % (cn_, st_, ids_))
     L.append(",\n".join(rows_))
     L.append("]")
+    L.append("/-- configuration setters and the container operation each performs: (what, compatible with last-write-wins) -/")
+    L.append("def setterOps : List (String × Bool) := [")
+    L.append(",\n".join('  ("%s", %s)' % (w_.replace('"', "'"), "true" if ok_ else "false") for (w_, ok_) in setter_ops))
+    L.append("]")
     L.append("/-- key types of caches that outlive a transformation: (what, holds) -/")
     L.append("def cacheKeySites : List (String × Bool) := [")
     L.append(",\n".join('  ("%s", %s)' % (w_.replace('"', "'"), "true" if ok_ else "false") for (w_, ok_) in key_sites))
@@ -1273,7 +1346,7 @@ def main():
         "sticky_written": sticky_written, "order_problems": order_problems,
         "objStackResetZeroesDepth": funcs[("OSC", "zeroes")], "paramSetClearsOther": param_set_clears_other,
         "guard_sites": guard_sites, "scratch_sites": scratch_sites, "guard_classes": guard_classes,
-        "guard_class_problems": guard_class_problems, "stateful_cache_sites": stateful_sites, "reinit_sites": reinit_sites, "cache_key_sites": key_sites, "uses_icu": uses_icu,
+        "guard_class_problems": guard_class_problems, "stateful_cache_sites": stateful_sites, "reinit_sites": reinit_sites, "setter_ops": setter_ops, "cache_key_sites": key_sites, "uses_icu": uses_icu,
     }
     with open(out_json, "w") as f:
         json.dump(side, f, indent=1)
